@@ -1,9 +1,9 @@
 (* C19 — vmap over tensordicts equals the per-sample loop.
    Proved: the shape / names / stack-dim bookkeeping of the functorch hooks; the ELEMENT-level statement "vmap f = stack of f on
-   the slices" for every f, rank, in_dim, out_dim >= 0 and nesting depth 2, with functorch's batching rules made explicit as
+   the slices" for every f, rank, in_dim, out_dim in [-(rank+1), rank] and nesting depth 2, with functorch's batching rules made explicit as
    ONE trusted definition (Model.C19_Content.lift: a function applied to batched values runs on every sample); the input /
    output plumbing of the monkey-patched vmap; the memoisation of batched views on locked tensordicts; the hidden-stack-dim
-   op classes of lazy stacks (D33, D192 backed by refutations).  functorch itself is exercised by the differential run. *)
+   op classes of lazy stacks (D33 backed by refutations; D190 / D191 / D192 repaired, the model follows).  functorch itself is exercised by the differential run. *)
 From Coq Require Import ZArith List Bool Lia.
 Import ListNotations.
 From TD Require Import Model.C19_Vmap Model.C19_Content Model.C19_Plumb Model.C19_Memo.
@@ -42,7 +42,8 @@ Theorem C19_lazy_vmap_identity : forall L i o,
 Proof. exact lazy_vmap_identity. Qed.
 Print Assumptions C19_lazy_vmap_identity.
 
-(* stated, outside the property's quantifier: for negative out_dims the list.insert bookkeeping is not torch's rule *)
+(* python's list.insert with a negative position is not torch's rule for a negative dim: why out_dim is wrapped (norm_out_dim /
+   torch_wrap) BEFORE the batch size, the names and the leaves use it (repair of D190 / D191, S8) *)
 Theorem C19_negative_out_dim_differs : exists bs B, td_remove bs B (-1) <> insert_at bs (length bs) B.
 Proof. exact negative_out_dim_differs. Qed.
 Print Assumptions C19_negative_out_dim_differs.
@@ -53,33 +54,50 @@ Theorem C19_sample_is_slice : forall V (t : tdict V) d j, sample (td_add_c t d) 
 Proof. exact sample_add_is_slice. Qed.
 Print Assumptions C19_sample_is_slice.
 
-(* for EVERY per-sample function f, tensordict (any rank, names, schema), in_dim d and out_dim 0 <= o <= rank of the
-   per-sample result: the call is accepted (every leaf starts with the new batch size), its batch size is B inserted at o,
-   its names / schema are those of the per-sample result (None at o), and EVERY element of every leaf is the element of
-   torch.stack([f(slice_j)], o) *)
-Theorem C19_vmap_eq_loop : forall V (f : tdict V -> tdict V) (t : tdict V) d o,
-  o <= length (bs (f (slice t d 0))) ->
-  exists R, vmap1 f d (Z.of_nat o) t = Ok R
-    /\ bs R = insert_at (bs (f (slice t d 0))) o (nth d (bs t) 0)
-    /\ nms R = names_remove (nms (f (slice t d 0))) (Z.of_nat o)
+(* for EVERY per-sample function f, tensordict (any rank, names, schema), in_dim d and EVERY out_dim o that names a position
+   p of the result (-(rank+1) <= o <= rank, torch's rule for negative values; repair of D190 / D191): the call is accepted
+   (every leaf starts with the new batch size), its batch size is B inserted at p, its names / schema are those of the
+   per-sample result (None at p), and EVERY element of every leaf is the element of torch.stack([f(slice_j)], o) *)
+Theorem C19_vmap_eq_loop : forall V (f : tdict V -> tdict V) (t : tdict V) d (o : Z) p,
+  torch_wrap o (length (bs (f (slice t d 0))) + 1) = Some p ->
+  exists R, vmap1 f d o t = Ok R
+    /\ bs R = insert_at (bs (f (slice t d 0))) p (nth d (bs t) 0)
+    /\ nms R = names_remove (nms (f (slice t d 0))) (Z.of_nat p)
     /\ schema R = schema (f (slice t d 0))
-    /\ forall k I, val R k I = stack_val (fun j => f (slice t d j)) o k I.
+    /\ forall k I, val R k I = stack_val (fun j => f (slice t d j)) p k I.
 Proof. exact vmap1_eq_loop. Qed.
 Print Assumptions C19_vmap_eq_loop.
 
 (* the same addressed by (sample j, element r of f(slice_j)) *)
-Theorem C19_vmap_elements : forall V (f : tdict V -> tdict V) (t : tdict V) d o,
-  o <= length (bs (f (slice t d 0))) ->
-  exists R, vmap1 f d (Z.of_nat o) t = Ok R /\
-    forall k j r, o <= length r -> val R k (insert_at r o j) = val (f (slice t d j)) k r.
+Theorem C19_vmap_elements : forall V (f : tdict V -> tdict V) (t : tdict V) d (o : Z) p,
+  torch_wrap o (length (bs (f (slice t d 0))) + 1) = Some p ->
+  exists R, vmap1 f d o t = Ok R /\
+    forall k j r, p <= length r -> val R k (insert_at r p j) = val (f (slice t d j)) k r.
 Proof. exact vmap1_elements. Qed.
 Print Assumptions C19_vmap_elements.
 
+(* an out_dim that names no position of the result is refused (IndexError), whatever the sizes *)
+Theorem C19_out_of_range_out_dim_raises : forall V (f : tdict V -> tdict V) (t : tdict V) d (o : Z),
+  torch_wrap o (length (bs (f (slice t d 0))) + 1) = None -> vmap1 f d o t = Raise IndexErr.
+Proof. exact out_of_range_out_dim_raises. Qed.
+Print Assumptions C19_out_of_range_out_dim_raises.
+
 Example C19_vmap_eq_loop_ex :
   let t := addr_td [2; 3] (Some [Some 0; Some 1]) [(0, [4])] in
-  1 <= length (bs (slice t 0 0)) /\
-  exists R, vmap1 (fun s => s) 0 1 t = Ok R /\ bs R = [3; 2] /\ nms R = Some [Some 1; None] /\ val R 0 [2; 1; 3] = [0; 1; 2; 3].
-Proof. split; [cbn; lia|]. eexists. split; [vm_compute; reflexivity|]. repeat split; reflexivity. Qed.
+  torch_wrap 1 (length (bs (slice t 0 0)) + 1) = Some 1 /\ torch_wrap (-1) (length (bs (slice t 0 0)) + 1) = Some 1 /\
+  torch_wrap 2 (length (bs (slice t 0 0)) + 1) = None /\
+  (exists R, vmap1 (fun s => s) 0 1 t = Ok R /\ bs R = [3; 2] /\ nms R = Some [Some 1; None] /\ val R 0 [2; 1; 3] = [0; 1; 2; 3]) /\
+  (exists R, vmap1 (fun s => s) 0 (-1) t = Ok R /\ bs R = [3; 2] /\ nms R = Some [Some 1; None] /\ val R 0 [2; 1; 3] = [0; 1; 2; 3]).
+Proof. repeat split; try reflexivity; eexists; (split; [vm_compute; reflexivity|]); repeat split; reflexivity. Qed.
+
+(* the former witnesses of D190 / D191 (silently wrong / raising / accepted out of range), now on the right side *)
+Example C19_negative_out_dim_right :
+  exists R, vmap1 (fun s => s) 0 (-1) w_td = Ok R /\ bs R = [3; 3] /\
+    val R 0 [0; 1; 2] = stack_val (fun j => slice w_td 0 j) 1 0 [0; 1; 2]
+  /\ exists R', vmap1 (fun s => s) 0 (-1) (addr_td [2; 3] None [(0, [4])]) = Ok R' /\ bs R' = [3; 2].
+Proof. exact negative_out_dim_right. Qed.
+Example C19_too_large_out_dim_refused : vmap1 (fun s => s) 0 2 (addr_td [2; 3] None [(0, [2])]) = Raise IndexErr.
+Proof. exact too_large_out_dim_refused. Qed.
 
 (* names through vmap(identity): untouched dims keep their names in order, None at out_dim; a single named dim is lost *)
 Theorem C19_names_identity : forall (l : list (option nat)) d o,
@@ -104,27 +122,6 @@ Example C19_vmap2_ex :
   let t := addr_td [2; 3; 2] None [(0, [])] in
   exists R, vmap1 (vmap1_total (fun s => s) 1 0) 0 2 t = Ok R /\ bs R = [2; 3; 2] /\ val R 0 [1; 2; 0] = [0; 0; 2; 1].
 Proof. eexists. split; [vm_compute; reflexivity|]. split; reflexivity. Qed.
-
-(* the statement for EVERY out_dim that names a position of the result (negative ones included) is false of the code (S8,
-   findings D190 / D191): kept visible, refuted by witnesses; the part proved is C19_vmap_eq_loop (out_dim >= 0) *)
-Definition C19_every_out_dim_full_statement : Prop :=
-  forall V (f : tdict V -> tdict V) (t : tdict V) d (o : Z) p,
-    torch_wrap o (length (bs (f (slice t d 0))) + 1) = Some p ->
-    exists R, vmap1 f d o t = Ok R /\ forall k I, val R k I = stack_val (fun j => f (slice t d j)) p k I.
-Theorem C19_negative_out_dim_silently_wrong_refuted :
-  exists R, vmap1 (fun s => s) 0 (-1) w_td = Ok R /\ bs R = [3; 3] /\
-    val R 0 [0; 1; 2] <> stack_val (fun j => slice w_td 0 j) 1 0 [0; 1; 2].
-Proof. exact negative_out_dim_silently_wrong. Qed.
-Print Assumptions C19_negative_out_dim_silently_wrong_refuted.
-Theorem C19_negative_out_dim_raises_refuted :
-  vmap1 (fun s => s) 0 (-1) (addr_td [2; 3] None [(0, [4])]) = Raise RuntimeErr.
-Proof. exact negative_out_dim_raises. Qed.
-Print Assumptions C19_negative_out_dim_raises_refuted.
-(* an out_dim that is NOT a position (rank + 1) is accepted when the first feature dim has the batch's size *)
-Theorem C19_too_large_out_dim_accepted :
-  exists R, vmap1 (fun s => s) 0 2 (addr_td [2; 3] None [(0, [2])]) = Ok R /\ bs R = [3; 2].
-Proof. exact too_large_out_dim_accepted. Qed.
-Print Assumptions C19_too_large_out_dim_accepted.
 
 (* ================= (b) input / output plumbing ================= *)
 Theorem C19_bcast_length : forall A B (d : ptree A) (t : ptree B) l, bcast d t = Some l -> length l = length (flatten t).
@@ -174,10 +171,16 @@ Example C19_process_ex :
   /\ process (PTup [PLeaf (LInt 2)]) [PLeaf (ATd [2; 3])] = PRej RRange.
 Proof. repeat split; reflexivity. Qed.
 
-(* a tensordict output with 0 <= out_dim <= its batch rank comes back with B inserted at out_dim, whatever its leaves *)
-Theorem C19_unwrap_td_ok : forall B b fs o, o <= length b -> unwrap1 B (OTd b fs) (LInt (Z.of_nat o)) = inr (RTd (insert_at b o B)).
+(* a tensordict output comes back with B inserted at the position out_dim names (negative values by torch's rule), whatever
+   its leaves; an out_dim that names no position is refused *)
+Theorem C19_unwrap_td_ok : forall B b fs (o : Z) p,
+  torch_wrap o (length b + 1) = Some p -> unwrap1 B (OTd b fs) (LInt o) = inr (RTd (insert_at b p B)).
 Proof. exact unwrap_td_ok. Qed.
 Print Assumptions C19_unwrap_td_ok.
+Theorem C19_unwrap_td_out_of_range : forall B b fs (o : Z),
+  torch_wrap o (length b + 1) = None -> unwrap1 B (OTd b fs) (LInt o) = inl UIndex.
+Proof. exact unwrap_td_out_of_range. Qed.
+Print Assumptions C19_unwrap_td_out_of_range.
 
 (* ================= (c) memoised batched views of locked tensordicts ================= *)
 (* two calls share an entry iff same (in_dim, vmap_level) *)
@@ -249,13 +252,18 @@ Theorem C19_lazy_visible_ops : forall L i o op,
   hres_remove (lazy_apply op (lazy_add L i)) (nth i (lazy_bs L) 0) o = movedim_shape (lazy_bs L) i o.
 Proof. exact lazy_visible_ops. Qed.
 Print Assumptions C19_lazy_visible_ops.
-(* D192: nested tensordicts with extra batch dims lose them *)
-Theorem C19_lazy_visible_nested_refuted :
-  exists L i o e, hidden L = false /\ i <> sd L /\ i < length (lazy_bs L) /\
-    hres_remove (lazy_apply (HNested e) (lazy_add L i)) (nth i (lazy_bs L) 0) o
-    <> insert_at (hop_sample_bs (HNested e) (remove_nth (lazy_bs L) i)) o (nth i (lazy_bs L) 0).
-Proof. exact lazy_visible_nested_refuted. Qed.
-Print Assumptions C19_lazy_visible_nested_refuted.
+(* get(nested key) when the vmapped dim is not the stack dim: the nested tensordict keeps its extra batch dims e, the result
+   is the stack of the per-sample nested tensordicts (repair of D192) *)
+Theorem C19_lazy_visible_nested : forall L i o e,
+  hidden L = false -> sd L <= length (mbs L) -> i < length (lazy_bs L) -> i <> sd L -> o <= length (lazy_bs L) - 1 ->
+  hres_remove (lazy_apply (HNested e) (lazy_add L i)) (nth i (lazy_bs L) 0) o
+  = insert_at (hop_sample_bs (HNested e) (remove_nth (lazy_bs L) i)) o (nth i (lazy_bs L) 0).
+Proof. exact lazy_visible_nested. Qed.
+Print Assumptions C19_lazy_visible_nested.
+Example C19_lazy_visible_nested_ex :
+  let L := {| mbs := [3]; nmem := 2; sd := 0; hidden := false |} in
+  hres_remove (lazy_apply (HNested [2]) (lazy_add L 1)) 3 1 = [2; 3; 2].
+Proof. exact lazy_visible_nested_ex. Qed.
 
 Example C19_lazy_ops_ex :
   let L := {| mbs := [5; 7]; nmem := 3; sd := 1; hidden := false |} in
